@@ -1,6 +1,7 @@
 // Small utilities shared by all harness binaries: argument parsing, PRNG, hashing,
 // JSON result files. No dependency on the library under test.
 #pragma once
+#include <csignal>
 #include <cstdint>
 #include <cstdio>
 #include <cstdlib>
@@ -10,7 +11,27 @@
 #include <string>
 #include <vector>
 
+#include <unistd.h>
+
+extern "C" void __sanitizer_set_death_callback(void (*)(void)) __attribute__((weak));
+
 namespace vu {
+
+// The case being executed, printed as "CASE ..." on stdout if the process dies (sanitizer report, abort, terminate):
+// the orchestration uses the last CASE line as the witness of a crash.
+inline char g_case[4096] = "";
+inline void set_case(const std::string& s) {
+    size_t n = s.size() < sizeof g_case - 1 ? s.size() : sizeof g_case - 1;
+    std::memcpy(g_case, s.data(), n); g_case[n] = 0;
+}
+inline void print_case_raw() {
+    (void)!::write(1, "\nCASE ", 6); (void)!::write(1, g_case, std::strlen(g_case)); (void)!::write(1, "\n", 1);
+}
+inline void abort_handler(int) { print_case_raw(); signal(SIGABRT, SIG_DFL); raise(SIGABRT); }
+inline void install_case_reporter() {
+    if (__sanitizer_set_death_callback) __sanitizer_set_death_callback(print_case_raw);
+    signal(SIGABRT, abort_handler);
+}
 
 struct Rng {
     uint64_t s;
